@@ -112,6 +112,50 @@ def run(ctx):
     from .c09 import sign_signable_rules
 
     sign_signable_rules(ctx.sub("DEP-C09"), "R2")
+    _signer_callers(ctx)
+
+
+SIGNERS_IN_MEMORY = ("signing.sign_signable", "root_signing.sign_root_metadata_dict_via_gpg")
+
+
+def _signer_callers(ctx, rule="R7"):
+    """every function of the repository that adds a signature to an envelope E through one of the
+    in-memory signers (load - add signature - save tools): on a path on which the signer runs,
+    the function itself never replaces, clears or shrinks E['signatures'] - the signatures
+    already present stay"""
+    from sa.callgraph import CallGraph
+    from sa.walker import flatten_events
+
+    eng, prog = ctx.eng, ctx.prog
+    cg = CallGraph(prog)
+    callers = sorted(q for q, sites in cg.sites.items() if q not in SIGNERS_IN_MEMORY and any(kind == "repo" and tgt in SIGNERS_IN_MEMORY for _n, kind, tgt in sites))
+    for q in callers:
+        sm = eng.walk(q)
+        site = fn_site(eng, sm)
+        bad = []
+        n_paths = 0
+        for p in sm.paths:
+            top = [ev for ev, d in flatten_events(p.events) if d == 0]
+            signed = [ev[3][0] for ev in top if ev[0] == "call" and isinstance(ev[2], str) and ev[2].split("[")[0].split("<")[0] in tuple("repo:" + s for s in SIGNERS_IN_MEMORY) and ev[3]]
+            if not signed:
+                continue
+            n_paths += 1
+            for E in signed:
+                sig = SubC(E, "signatures")
+                for ev, d in flatten_events(p.events):
+                    if d != 0:
+                        continue
+                    if ev[0] == "store" and ev[2] == sig and not _mentions(ev[3], sig):
+                        # (a new map built from the old one - dict(old), {**old} - keeps the entries)
+                        bad.append("replaces %s at %s" % (show(sig)[:50], ev[1].loc()))
+                    elif ev[0] == "del" and (ev[2] == sig or (isinstance(ev[2], tuple) and ev[2][0] == "sub" and ev[2][1] == sig)):
+                        bad.append("deletes from %s at %s" % (show(sig)[:50], ev[1].loc()))
+                    elif ev[0] == "mutcall" and ev[2] == sig and ev[3] in ("clear", "pop", "popitem"):
+                        bad.append("%s() on %s at %s" % (ev[3], show(sig)[:50], ev[1].loc()))
+        ctx.count(rule + ".callers")
+        ctx.count(rule + ".paths", n_paths)
+        ctx.ob(rule, "keeps-existing-signatures|%s" % q, site.loc(), "%s adds a signature through an in-memory signer %s" % (q, "and does not itself replace, clear or shrink the envelope's signature map on those paths (%d paths)" % n_paths if not bad else "but also: " + "; ".join(sorted(set(bad)))[:300] + " - signatures already present are lost"), not bad)
+    ctx.floor(rule + ".callers", 2)
 
 
 def _inplace_signers(ctx, rule="R3"):
@@ -159,6 +203,14 @@ def _inplace_signers(ctx, rule="R3"):
         same = bool(written) and all((eng.expand(ev[3][0]) == L or _rebuilt_from(eng.expand(ev[3][0]), L)) and ev[3][1] == p0 for ev in written)
         ctx.ob(rule, "writes-back-what-it-loaded|%s" % q, site.loc(), "%s %s" % (q, "writes the loaded document back to the path it was loaded from" if same else "does not write the loaded value back to the same path: " + "; ".join("write_metadata_to_file(%s)" % ", ".join(show(a)[:60] for a in ev[3]) for ev in written)[:300]), same)
     ctx.floor(rule + ".signers", 4)
+
+
+def _mentions(t, x):
+    if t == x:
+        return True
+    if isinstance(t, (tuple, frozenset)):
+        return any(_mentions(y, x) for y in t)
+    return False
 
 
 def _rebuilt_from(v, L):
